@@ -23,6 +23,15 @@ class _Unknown(object):
 UNKNOWN = _Unknown()
 
 
+class Raises(object):
+    """result of run_program: the folded program raises this exception on the given constants"""
+    def __init__(self, name):
+        self.name = name
+
+    def __repr__(self):
+        return "<raises %s>" % self.name
+
+
 class EnumVal(object):
     """value of a SerializableEnum member: PacketType.APP"""
 
@@ -316,6 +325,9 @@ class Folder(object):
                     except Exception:
                         env[st.target.id] = UNKNOWN
                 continue
+            if isinstance(st, ast.Raise):
+                exc = st.exc
+                return Raises(norm(exc.func) if isinstance(exc, ast.Call) else norm(exc) if exc is not None else "")
             if isinstance(st, ast.If):
                 t = self._fold_prog(st.test, fi, env, collect)
                 if t is UNKNOWN:
